@@ -1,10 +1,12 @@
 #!/bin/bash
 # tools/try_seed.sh <patch.diff> <PROP> [<PROP>...]  : apply a seeded change to /repo, run the checks, undo it.
+# TSG_REPO=<worktree> runs the same on a scratch worktree instead of /repo (used while /repo is busy)
 P=$1; shift
-cd /repo || exit 2
-if [ -n "$(git status --porcelain --untracked-files=no)" ]; then echo "/repo not clean"; exit 2; fi
+R=${TSG_REPO:-/repo}
+cd $R || exit 2
+if [ -n "$(git status --porcelain --untracked-files=no)" ]; then echo "$R not clean"; exit 2; fi
 git apply "$P" || { echo "patch does not apply"; exit 2; }
-trap 'git -C /repo checkout -q -- .' EXIT
+trap "git -C $R checkout -q -- ." EXIT
 cd /verif
 for prop in "$@"; do
   out=$(./check $prop 2>&1); rc=$?
